@@ -254,7 +254,11 @@ class FockOperationType(Enum):
 
         assert isinstance(num_quanta, int)
         assert isinstance(state, jnp.ndarray)
-        state = state / jnp.linalg.norm(state)
+        if state.ndim == 2 and state.shape[1] != 1:
+            # density matrix: the estimator accumulates the diagonal
+            state = state / jnp.trace(state)
+        else:
+            state = state / jnp.linalg.norm(state)
 
         match self:
             case FockOperationType.Creation:
